@@ -103,7 +103,9 @@ def md_variant(rng):
     if k == 1:
         return {}
     if k == 2:
-        return {"epoch": int(rng.integers(0, 100)), "note": "run-" + str(int(rng.integers(0, 9))), "lr": 0.01}
+        # plain names a library might want for itself but does not reserve ("version", "date", "name", "device")
+        return {"epoch": int(rng.integers(0, 100)), "note": "run-" + str(int(rng.integers(0, 9))), "lr": 0.01,
+                "version": int(rng.integers(1, 9)), "name": "experiment", "date": "2019-01-01", "device": "tape"}
     if k == 3:
         return {"cfg": {"lr": 0.1, "sizes": [1, 2, 3], "tag": ("a", 2)}, "flag": True}
     return {"t": torch.tensor(rng.normal(size=(2, 3))), "v": torch.arange(4)}
